@@ -49,18 +49,34 @@ type LemmaJSON struct {
 	Error       string    `json:"error,omitempty"`
 }
 
-var tagRe = regexp.MustCompile(`#(?:assert|post|pre):(C\d\d)/|(?:step|inv|peel)_(C\d\d)_`)
+var tagRe = regexp.MustCompile(`#(?:assert|post|pre):(C\d\d)/|(?:step|inv|peel)_((?:C\d\d_)+)`)
 
-// oblProperty: the property an obligation is labelled with ("" if none).
-func oblProperty(name string) string {
+// oblProperties: the properties an obligation is labelled with (none: nil).  A step /
+// invariant function may carry several: step_C07_C08_C17_name.
+func oblProperties(name string) []string {
 	m := tagRe.FindStringSubmatch(name)
 	if m == nil {
-		return ""
+		return nil
 	}
 	if m[1] != "" {
-		return m[1]
+		return []string{m[1]}
 	}
-	return m[2]
+	return strings.Split(strings.TrimSuffix(m[2], "_"), "_")
+}
+
+// oblBelongs: does the obligation count for property prop when it occurs in a lemma
+// that is (primary) / is not one of prop's own lemma functions?
+func oblBelongs(name, prop string, primary bool) bool {
+	tags := oblProperties(name)
+	if len(tags) == 0 {
+		return primary
+	}
+	for _, t := range tags {
+		if t == prop {
+			return true
+		}
+	}
+	return false
 }
 
 // lemmaMentions: the lemma's source contains a label "<prop>/...".
@@ -344,7 +360,7 @@ func checkProperty(P *Program, verifDir, prop, tier string, opts VerifyOpts) int
 			if o.Status == "discharged" || o.Bounded != "" {
 				continue
 			}
-			if tag := oblProperty(o.Name); tag != prop && (tag != "" || !primary) {
+			if !oblBelongs(o.Name, prop, primary) {
 				continue
 			}
 			bn := baseName(o.Name)
@@ -419,7 +435,7 @@ func checkProperty(P *Program, verifDir, prop, tier string, opts VerifyOpts) int
 		}
 		primary := strings.HasPrefix(lj.Lemma, "lemma_"+prop+"_")
 		for _, o := range lj.Obligations {
-			if tag := oblProperty(o.Name); tag != prop && (tag != "" || !primary) {
+			if !oblBelongs(o.Name, prop, primary) {
 				continue // belongs to another property
 			}
 			bn := baseName(o.Name)
